@@ -73,8 +73,10 @@ engine object, any order of calls including calls on a released engine — given
 are explicit in `Respecting` (through `stepLive`), per script that is set up:
 * `initReturns`  — the initial-state redistribution loop of `GenerateStochasticDistribution` terminates
                    (C14's hypothesis `redist_progress`);
-* `stepReturns`  — every `std::poisson_distribution<int>` call of the run returns (size assumption: amounts and
-                   Poisson means stay below 2³¹).
+* `stepReturns`  — every Poisson draw of the run returns.  With `std::poisson_distribution<int>` (pinned tree) this was a
+                   size assumption (Poisson means below 2³¹); running the real code at the excluded point showed that it is
+                   needed — a mean ≥ 2³¹ never returned — and the engine now draws with `<long long>` (fix30, f4d954c), which
+                   moves the bound to 2⁶³; the harness generates means beyond 2³¹ and observes the calls with time-outs.
 Everything else the calls do is total in the model: `Iterate` is a total function, `iterate_n` / `run` are finite
 compositions of it (`loops_are_finite`), the export loops are bounded by the sizes. -/
 theorem every_call_returns (h : List (Call σ ω)) (hr : Respecting false h) :
